@@ -149,6 +149,12 @@ def main(ctx, args):
         # arrays (no reference semantics): stateful constructs in the index / the elements / nested accesses, in helpers and in dsp
         import arrgen
         allcases += arrgen.make(ctx.seed, 120 if ctx.tier == "quick" else 180)
+        # integer `match` with stateful arms (tools/gen/matchgen.py; no reference semantics, no modelled layout): the hook's trace
+        # against the published layout (seeded C03e dropped the cells of the wildcard arm from the layout)
+        import matchgen
+        for i in range(150 if ctx.tier == "quick" else 1000):
+            msrc, minp = matchgen.make_case(ctx.seed, i, times)
+            allcases.append({"id": f"matchint:{ctx.seed}:{i}", "src": msrc, "sx": None, "inputs": minp, "times": times, "profile": "match"})
     res = run_c05(allcases)
     lo_cases, lo_res = [], {}      # (no layout-only stream any more)
     # layout-only stream (compiled, not run: times = 0): the streams aimed AT findings F3 (state inside `if` arms) and F2
